@@ -64,7 +64,7 @@ NewStaged(t, r, ctxin, prev, ready, retry) ==                     \* add_staged_
 (* inbound criteria (l.518-564)                                                               *)
 InboundStatus(d, S, x, r) ==
   LET ins  == Inbound(d, x)
-      b    == IF x \in TaskNames(d) /\ d.tasks[x].join # 0 THEN d.tasks[x].join ELSE 1
+      b    == IF x \in TaskNames(d) /\ d.tasks[x].join \notin {0, -2} THEN d.tasks[x].join ELSE 1   \* barrier or 1
       need == IF b = -1 THEN Cardinality(ins) ELSE b
       evalOf(p) ==
         LET li == RecIdxOf(S, p, r) IN
